@@ -139,6 +139,25 @@ func Run(r *ev.Run, replay string) {
 
 var sampled sync.Map
 
+func dbgOnce(k string) bool { _, done := sampled.LoadOrStore(k, true); return done }
+
+var (
+	maxMu      sync.Mutex
+	maxCallsOK int64
+)
+
+// maxCalls keeps the largest number of client calls of a resolution that ended
+// within the budget (evidence that the budget is far from what terminating
+// resolutions need).
+func maxCalls(r *ev.Run, n int64) {
+	maxMu.Lock()
+	if n > maxCallsOK {
+		maxCallsOK = n
+		r.Set("max_client_calls_of_a_terminating_resolution", n)
+	}
+	maxMu.Unlock()
+}
+
 // runCase executes one sequential case: invariants on a fresh client, then the
 // differential for the case's root (kind diff) or for every version (kind all).
 func runCase(r *ev.Run, e *env, c Case, shrink bool) {
@@ -221,8 +240,21 @@ func runCase(r *ev.Run, e *env, c Case, shrink bool) {
 		d := differential(ac, lc, budget, npmVK(root[0], root[1], resolve.Concrete))
 		r.Eval(1)
 		r.Count("diff:resolutions", 1)
+		if os.Getenv("C18_DEBUG") != "" {
+			fmt.Printf("CALLS %d %d %v\n", d.api.calls, d.local.calls, d.skipped)
+			if d.skipped == "budget-both" && !dbgOnce("dbg-exh") {
+				sr := shrinkRegistry(reg, root, 400, func(s *Registry) bool {
+					su := Encode(s)
+					return resolveOnce(su.Client(nil), 3000, npmVK(root[0], root[1], resolve.Concrete)).exhausted
+				})
+				fmt.Printf("EXHAUSTED root %v\n%s\n", root, sr.describe())
+			}
+		}
 		if d.skipped != "" {
 			r.Count("diff:skipped:"+d.skipped, 1)
+			if os.Getenv("C18_DEBUG") != "" && d.skipped == "error-both-different-text" {
+				fmt.Printf("ERROR-BOTH api=%q local=%q\n", d.api.enc, d.local.enc)
+			}
 		}
 		if len(v.Bundled) > 0 {
 			r.Count("feature:root-with-bundles", 1)
@@ -232,6 +264,9 @@ func runCase(r *ev.Run, e *env, c Case, shrink bool) {
 		}
 		if d.api.bundled > 0 {
 			r.Count("feature:graph-with-bundled-node", 1)
+		}
+		if d.skipped == "" && d.class == "" {
+			maxCalls(r, d.api.calls)
 		}
 		if len(v.Bundled) > 0 || d.api.bundled > 0 {
 			r.Nontrivial(c.Note + "|" + root[0] + "@" + root[1])
